@@ -1,40 +1,71 @@
 /-! Types of the skeleton that `harness/extractors/e8_handover.py` regenerates from
 eliot/_output.py (`Eliot/Generated/Handover.lean`): statements of `Destinations.add`,
-`Destinations.send` and `BufferingDestination.__call__`.  Plain data, Mathlib-free. -/
+`Destinations.send` (`_send_to`) and `BufferingDestination.__call__` / `drain`.  Plain data, Mathlib-free. -/
 namespace Eliot.Conc.Handover
 
 inductive AOp where
   | initNone                 -- buffered_messages = None
   | ifFirstAdd (n : Nat)     -- if not self._any_added:  (the next n statements are its body)
+  | ifFirstAddElse (a b : Nat)  -- if not self._any_added: <next a statements> else: <b statements after them>
   | setAnyAdded              -- self._any_added = True
   | takeBuffer               -- buffered_messages = self._destinations[0].messages   (reference, not a copy)
+  | takeBufferDest           -- buffering_destination = self._destinations[0]
   | swapDests                -- self._destinations = []
+  | mkNewList                -- new_destinations = list(destinations)
+  | drainForward             -- buffering_destination.drain(lambda message: self._send_to(new_destinations, message))
+  | assignDests              -- self._destinations = new_destinations
   | extendDests              -- self._destinations.extend(destinations)
   | ifBufferedResend         -- if buffered_messages: for message in buffered_messages: self.send(message)
   | unknown
 deriving DecidableEq, Repr
 
 inductive SOp where
-  | updateGlobals | localAssign | forDestsCall | reportErrors | unknown
+  | updateGlobals | localAssign | forDestsCall | reportErrors
+  | delegateSendTo           -- self._send_to(self._destinations, message, logger)
+  | unknown
 deriving DecidableEq, Repr
 
 inductive BOp where
-  | append | trim | unknown
+  | append | trim
+  | lockedAppendElseFall     -- with self._lock: if self._forward is None: append; trim; return
+  | forwardCall              -- self._forward(message)
+  | lockedSetForwardTakeResend  -- with self._lock: self._forward = forward; messages, self.messages = self.messages, []; for message in messages: forward(message)
+  | unknown
+deriving DecidableEq, Repr
+
+inductive LockKind where
+  | none | lock | rlock | other
 deriving DecidableEq, Repr
 
 structure HandoverSkel where
   add : List AOp
   send : List SOp
+  /-- body of `_send_to` (empty when there is no such method) -/
+  sendTo : List SOp
   buffer : List BOp
-  /-- some lock / decorator is used in one of the three functions (the pinned tree has none) -/
-  locked : Bool
+  /-- body of `BufferingDestination.drain` (empty when there is no such method) -/
+  drain : List BOp
+  /-- what `BufferingDestination.__init__` assigns to `self._lock` -/
+  lock : LockKind
 deriving DecidableEq, Repr
 
-/-- the shape of the pinned tree, for which the model `Eliot.Conc.Handover` is written -/
-def assumed : HandoverSkel :=
+/-- the shape of the pinned tree (before the repair), for which the model `Eliot.Conc.Handover` and the
+loss witnesses are written -/
+def pinnedSkel : HandoverSkel :=
   { add := [.initNone, .ifFirstAdd 3, .setAnyAdded, .takeBuffer, .swapDests, .extendDests, .ifBufferedResend],
     send := [.updateGlobals, .localAssign, .localAssign, .forDestsCall, .reportErrors],
+    sendTo := [],
     buffer := [.append, .trim],
-    locked := false }
+    drain := [],
+    lock := .none }
+
+/-- the repaired shape, for which the model `Eliot.Conc.HandoverFix` and `handover_no_loss` are written -/
+def fixedSkel : HandoverSkel :=
+  { add := [.ifFirstAddElse 5 1, .setAnyAdded, .takeBufferDest, .mkNewList, .drainForward, .assignDests, .extendDests],
+    send := [.delegateSendTo],
+    sendTo := [.updateGlobals, .localAssign, .localAssign, .forDestsCall, .reportErrors],
+    buffer := [.lockedAppendElseFall, .forwardCall],
+    drain := [.lockedSetForwardTakeResend],
+    lock := .rlock }
 
 end Eliot.Conc.Handover
